@@ -183,6 +183,14 @@ def run_proc(argv, cwd, env, timeout=60, stdin=None, stdout_path=None, tmpdir=No
     except subprocess.TimeoutExpired:
         timed_out = True
         live_children = _children_of(p.pid)
+        # process-state evidence for a deadlock witness: nobody in the process tree is runnable or consumes CPU during
+        # an observation window, and nothing is written to stdout/stderr meanwhile
+        snap1 = _tree_state(p.pid)
+        sz1 = (of.tell() if of is not None and not stdout_path else 0, os.fstat(ef.fileno()).st_size)
+        time.sleep(1.5)
+        snap2 = _tree_state(p.pid)
+        sz2 = (of.tell() if of is not None and not stdout_path else 0, os.fstat(ef.fileno()).st_size)
+        quiescent = bool(snap1) and snap1 == snap2 and sz1 == sz2 and all(st in ("S", "Z") for _, st, _ in snap2)
         try:
             os.kill(p.pid, signal.SIGQUIT)
         except ProcessLookupError:
@@ -212,8 +220,45 @@ def run_proc(argv, cwd, env, timeout=60, stdin=None, stdout_path=None, tmpdir=No
     ef.close()
     res = Result(p.returncode, out, err, timed_out, wall)
     if timed_out:
-        res.rusage = {"live_children": live_children}
+        res.rusage = {"live_children": live_children, "quiescent": quiescent, "process_tree": snap2}
     return res
+
+
+def deadlock_witness(r):
+    """True iff a watchdog-terminated run left a deadlock witness: goroutine dump present and the process tree was
+    quiescent (or had no live child). Anything else after a watchdog is inconclusive, never a violation."""
+    if not r.timed_out:
+        return False
+    ru = r.rusage or {}
+    return b"goroutine " in r.err and (not ru.get("live_children") or ru.get("quiescent", False))
+
+
+def _tree_state(root):
+    """[(comm, state, cpu ticks)] of root and all its live descendants."""
+    procs = {}
+    for d in os.listdir("/proc"):
+        if not d.isdigit():
+            continue
+        try:
+            with open("/proc/%s/stat" % d) as f:
+                st = f.read()
+            rp = st.rfind(")")
+            fields = st[rp + 2:].split()
+            procs[int(d)] = (st[st.find("(") + 1:rp], fields[0], int(fields[1]), int(fields[11]) + int(fields[12]))
+        except (OSError, ValueError, IndexError):
+            continue
+    out = []
+    todo = [root]
+    seen = set()
+    while todo:
+        x = todo.pop()
+        if x in seen or x not in procs:
+            continue
+        seen.add(x)
+        comm, state, ppid, cpu = procs[x]
+        out.append((comm, state, cpu))
+        todo.extend(k for k, v in procs.items() if v[2] == x)
+    return sorted(out)
 
 
 def _children_of(pid):
